@@ -23,13 +23,19 @@ from vmon.model import c11_metatable as mt
 
 PROP = "C11"
 LEVEL = "exploration"
-RULE = ("complete product of the frozen key space (108 table keys + online_filter/filtering "
-        "pattern keys over all 114 scalar features and ml_score_???, feature pairs over a frozen "
-        "12-feature set, 12 user keys, 45 unknown/malformed keys) x 75 value representations x "
-        "all setting/storage routes; a case (section, key, representation) is non-trivial when "
-        "the reference conversion changes the type or value of the input or refuses it; distinct "
-        "by hash of (section, key, representation name). Thorough adds all 114x114 feature pairs, "
-        "one file per (key, representation) and longer seeded assignment histories")
+RULE = ("complete product of the frozen key space (108 table keys; online_filter '<feat> min|max|"
+        "soft limit' and filtering '<feat> min|max' over all 114 scalar features + 2 ml_score_??? "
+        "names; '<f1>,<f2> soft limit|polygon points' over 12x12 frozen features; 12 user keys; "
+        "43 unknown/malformed keys and sections; 3 keys with undocumented suffix) x 75 value "
+        "representations x all setting/storage routes (item assignment, update, "
+        "Configuration.update, Configuration(cfg=), ConfigurationDict(section, dict), section "
+        "assignment, text save/tostring->load, hand-written text line, RTDCWriter.store_metadata"
+        "->HDF5 attributes->new_dataset, Export.hdf5 from file and from memory, dclab.cli."
+        "compress); a case (section, key, representation) is non-trivial when the reference "
+        "conversion changes the type or value of the input or refuses it; distinct by hash of "
+        "(section, key, representation name). The seed only changes mixed-case spellings and the "
+        "assignment histories. Thorough adds all 114x114 feature pairs (assignment/update), one "
+        "file per (key, representation) for 175 keys and 20x more histories")
 LEVEL_TEXT = ("Held on the observed executions: for every key of the frozen table, every value "
               "representation and every route the stored value equals the independent reference "
               "conversion, has the documented class, is idempotent and reachable under any "
@@ -38,11 +44,15 @@ LEVEL_TEXT = ("Held on the observed executions: for every key of the frozen tabl
               "is finite and enumerated completely; keys added to dclab after the snapshot are "
               "ignored, not flagged.")
 LEVEL_NOTE = ("trusted: numpy/h5py, the frozen MetaTable snapshot, the reference converters. Not "
-              "judged (recorded): bytes on item assignment, non-string input to lower-case-string "
-              "keys, numpy containers for integer lists, size-1 arrays as scalars, numeric text "
-              "for bool-or-float keys, arrays that are not 2-d for polygon points, undocumented "
-              "online_filter suffixes, untyped (user / filtering range) values on the text route "
-              "(documented as heuristic), text-unsafe strings, integers beyond 2**53.")
+              "judged (recorded as dc[...] counters): bytes on item assignment, non-string input "
+              "to lower-case-string keys, numpy containers for integer lists, size-1 arrays as "
+              "scalars, numeric text for bool-or-float keys, text form of tuples as input, arrays "
+              "that are not 2-d for polygon points, bool / 0-d arrays for range limits, "
+              "undocumented online_filter suffixes, non-string keys outside the user section, "
+              "untyped (user / filtering range) values on the text route (documented as "
+              "heuristic), text-unsafe strings, integers beyond 2**53, None handed directly to "
+              "the writer, user values HDF5 cannot carry, the fmt_tdms section in files, "
+              "filtering defaults re-created by Configuration.copy().")
 TECHNIQUE = ("runtime monitoring: icontract post-condition on ConfigurationDict.__setitem__ + "
              "exhaustive differential round trips against a frozen type table")
 ASSUMPTIONS = [
@@ -52,7 +62,8 @@ ASSUMPTIONS = [
     "experiment:event count and setup:software version are rewritten by the writer as "
     "documented (rectify_metadata, version branding) and are compared against those rules",
 ]
-MIN_EVALS = {"setitem_contract": 20000, "section_assign": 1000, "h5_attribute": 2000, "stored_equals_ref": 5000, "documented_class": 5000,
+MIN_EVALS = {"setitem_contract": 20000, "section_assign": 1000, "h5_attribute": 2000,
+             "stored_equals_ref": 5000, "documented_class": 5000,
              "rejected_not_stored": 2000, "rejected_with_warning": 500,
              "case_insensitive": 5000, "idempotent": 3000, "text_roundtrip": 2000,
              "text_setting": 1000, "file_roundtrip": 2000, "export_roundtrip": 2000,
@@ -241,6 +252,7 @@ def plan(tier, seed):
 class _State:
     ctx = None
     route = "-"          # route label of the driver step in progress (for witnesses)
+    mute = False         # set while the driver builds a scaffold object that is not under test
     depth = 0
 
 
@@ -516,6 +528,8 @@ def install():
 
     @functools.wraps(orig)
     def __setitem__(self, key, value):
+        if _State.mute:
+            return orig(self, key, value)
         prev = _snapshot(self, key)
         try:
             return contracted(self, key, value)
@@ -553,6 +567,17 @@ def attempt(func):
     return c
 
 
+def fresh_cfg():
+    """A default Configuration as scaffold; its five default entries are judged by the hook
+    in the constructor route, not again for every scaffold."""
+    from dclab.rtdc_dataset import config as dconfig
+    _State.mute = True
+    try:
+        return dconfig.Configuration()
+    finally:
+        _State.mute = False
+
+
 def get_section(cfg, sec):
     """The section dict without creating it as a side effect of looking."""
     try:
@@ -580,7 +605,7 @@ def default_entry(sec, key):
     """Entry a fresh Configuration() holds for (sec, key) before anything is set."""
     if not _defaults:
         from dclab.rtdc_dataset import config as dconfig
-        cfg = dconfig.Configuration()
+        cfg = fresh_cfg()
         for s in cfg.keys():
             for k, v in cfg[s].data.items():
                 _defaults[(s, k)] = v
@@ -822,7 +847,7 @@ def run_mem_key(ctx, sec, key, group, rng, routes_full=True):
             continue
         # ---- route: item assignment
         if not unknown_section:
-            cfg = dconfig.Configuration()
+            cfg = fresh_cfg()
             _State.route = "assign"
             c = attempt(lambda: cfg[sec].__setitem__(skey, fac()))
             sd = get_section(cfg, sec)
@@ -834,12 +859,12 @@ def run_mem_key(ctx, sec, key, group, rng, routes_full=True):
                 check_idempotent(ctx, sd, sec, key, typ, cur, rname)
         # ---- route: section.update / Configuration.update / constructors
         if not unknown_section:
-            cfg = dconfig.Configuration()
+            cfg = fresh_cfg()
             _State.route = "update"
             c = attempt(lambda: cfg[sec].update({skey: fac()}))
             judge_route(ctx, "update", sec, key, skey, rname, value, typ, out,
                         get_section(cfg, sec), c, prev=default_entry(sec, key))
-        cfg = dconfig.Configuration()
+        cfg = fresh_cfg()
         _State.route = "cfg_update"
         c = attempt(lambda: cfg.update({sec: {skey: fac()}}))
         judge_route(ctx, "cfg_update", sec, key, skey, rname, value, typ, out,
@@ -862,7 +887,7 @@ def run_mem_key(ctx, sec, key, group, rng, routes_full=True):
         run_text_setting(ctx, sec, key, skey, rname, value, typ, out)
         # ---- route: section assignment (documented for the user section)
         if group in ("user", "fixed") or (group == "invalid" and sec == "user"):
-            cfg = dconfig.Configuration()
+            cfg = fresh_cfg()
             _State.route = "section_assign"
             c = attempt(lambda: cfg.__setitem__(sec, {skey: fac()}))
             sd = get_section(cfg, sec)
@@ -940,7 +965,7 @@ def h5_storable(v):
     return False
 
 
-def expected_in_file(sec, key, typ, norm, n_events, orig_given=True):
+def expected_in_file(sec, key, typ, norm, n_events):
     """The documented rewriting the writer applies on top of the normalised value."""
     if (sec, key) == ("experiment", "event count"):
         return n_events
@@ -1224,7 +1249,6 @@ def run_file_single(ctx, sec, key):
 # ------------------------------------------------------------------------ histories
 def run_seq(ctx, idx):
     """Random assignment history on one Configuration, compared with a model dict."""
-    import copy
     from dclab.rtdc_dataset import config as dconfig
     rng = ctx.rng(idx)
     pool = [(s, k, g) for s, k, g in KEYS if g != "invalid_section" and g != "dc"]
